@@ -46,7 +46,7 @@ OnHkB(Gb) ==
             /\ Settled
             /\ Check("C19", ~Has(Gb.sync, k), <<"claimed a key that is already claimed", k, t>>)
             /\ G' = Claim(Gb, k, t)
-            /\ aux' = [aux EXCEPT !.cands = {}, !.tt = FALSE]
+            /\ aux' = aux
       [] nm = "dg_block" ->
             LET from == ev.a0 to == ev.a1 IN
             /\ Settled
@@ -89,7 +89,8 @@ OnHkB(Gb) ==
             /\ Check("C19", Has(Gb.sync, k), <<"released a key that is not claimed", k>>)
             /\ Check("C19", waiting => ev.a1 = 1, <<"threads wait for the key but the release skips the wake-up (anyone_waiting is false)", k, Get(Gb.qd, k, <<>>)>>)
             /\ G' = ReleaseEntry(Gb, k)
-            /\ aux' = [aux EXCEPT !.releases = aux.releases + 1, !.cands = {}, !.tt = FALSE]
+            \* (an event made under a shard lock only: it may fall between a transfer and the unblock of its target)
+            /\ aux' = [aux EXCEPT !.releases = aux.releases + 1]
       [] nm = "sync_release_self" ->
             /\ Settled
             /\ G' = IF Has(Gb.sync, k) THEN ReleaseSelf(Gb, k) ELSE Gb
